@@ -2,14 +2,18 @@
   Driver family `tx`: MULTI/EXEC over the key-space machine (C07).
 
   reset                                          → ok
-  frame <conn> <now-ms> <watchOk 0|1> <arg-hex>… → <code reply> # <spec reply> # same|differ
+  frame <conn> <now-ms> <watchOk 0|1> <arg-hex>… → <code reply> # <spec reply> # same|differ # <code deliveries> # <spec deliveries>
+        (deliveries: what the service of blocked clients after this frame sends to OTHER connections,
+         `<conn>=<reply> ; …` in the order served, `.` = none)
         one frame of connection <conn> through `processFrame`; the state follows `Quirks.ofSource` (the switches the translator
         reads off the current source: today = `Quirks.code`, the tree as found); the
         prescribed reply (`Quirks.spec`) is computed from the same pre-state; `same` iff both variants
         leave the same dataset, hand-over log and state of that connection
   disc <conn>                                    → ok          (the connection goes away)
-  conn <conn>                                    → <db> <inTx 0|1> <queue length> <aborted 0|1>
-  dump <db> <now-ms>                             → canonical dump of one database (as drv_ks)
+  conn <conn>                                    → <db> <inTx 0|1> <queue length> <aborted 0|1> <blocked 0|1>
+  dump <db> <now-ms>                             → canonical dump of one database (as drv_ks), state following the source variant
+  dumpspec <db> <now-ms>                         → the same for the state that followed `Quirks.spec` from the start of the history
+  waiters                                        → blocked clients in registration order `<conn>:<db>:<L|R>:<key-hex,…>;…` or `.`
   ext                                            → hand-over log `<conn>:<NAME>|…` or `.`
   switches                                       → immediate names (`|`-joined or `.`) selectInExecIgnored blockingInExecNoResponse
 
@@ -31,10 +35,20 @@ def showReply : Reply → String
   | .exec slots => "( a" ++ String.join (slots.map fun o => " " ++ showOut o) ++ " )"
 
 structure St where
-  s : Server := {}
+  /-- follows `Quirks.ofSource` (what the current source does, as far as the translator can tell) -/
+  L : Loop := {}
+  /-- follows `Quirks.spec` from the start of the history (what the property prescribes) -/
+  P : Loop := {}
 
 def showExt (l : List (Nat × Cmd)) : String :=
   if l.isEmpty then "." else String.intercalate "|" (l.map fun p => s!"{p.1}:{nameOf p.2}")
+
+def showDeliveries (l : List (Nat × Frame)) : String :=
+  if l.isEmpty then "." else String.intercalate " ; " (l.map fun p => s!"{p.1}={Keyspace.showReply p.2}")
+
+def showWaiters (l : List Waiter) : String :=
+  if l.isEmpty then "." else String.intercalate ";" (l.map fun w =>
+    s!"{w.cid}:{w.db}:{if w.left then "L" else "R"}:{String.intercalate "," (w.keys.map toHex)}")
 
 def b01 (b : Bool) : String := if b then "1" else "0"
 
@@ -46,26 +60,34 @@ def step (st : St) (ws : List String) : St × String :=
     | some cid, some now, some args =>
       if w != "0" && w != "1" then (st, "bad-op") else
       let r : Req := { cmd := args, now := now, watchOk := w == "1" }
-      let (s1, r1) := processFrame Quirks.ofSource st.s cid r
-      let (s2, r2) := processFrame Quirks.spec st.s cid r
-      let same := s1.store == s2.store && s1.ext == s2.ext && s1.conns cid == s2.conns cid
-      ({ s := s1 }, showReply r1 ++ " # " ++ showReply r2 ++ " # " ++ (if same then "same" else "differ"))
+      let (l1, r1, d1) := Loop.frame Quirks.ofSource st.L cid r
+      let (l2, r2, d2) := Loop.frame Quirks.spec st.L cid r
+      let (p1, _, _) := Loop.frame Quirks.spec st.P cid r
+      let same := l1.srv.store == l2.srv.store && l1.srv.ext == l2.srv.ext && l1.srv.conns cid == l2.srv.conns cid
+        && l1.waiters == l2.waiters
+      ({ L := l1, P := p1 }, showReply r1 ++ " # " ++ showReply r2 ++ " # " ++ (if same then "same" else "differ")
+        ++ " # " ++ showDeliveries d1 ++ " # " ++ showDeliveries d2)
     | _, _, _ => (st, "bad-op")
   | ["disc", conn] =>
     match conn.toNat? with
-    | some cid => ({ s := (stepEvent Quirks.ofSource st.s (.disconnect cid)).1 }, "ok")
+    | some cid => ({ L := Loop.disconnect Quirks.ofSource st.L cid, P := Loop.disconnect Quirks.spec st.P cid }, "ok")
     | none => (st, "bad-op")
   | ["conn", conn] =>
     match conn.toNat? with
     | some cid =>
-      let c := st.s.conns cid
-      (st, s!"{c.db} {b01 c.inTx} {c.queue.length} {b01 c.aborted}")
+      let c := st.L.srv.conns cid
+      (st, s!"{c.db} {b01 c.inTx} {c.queue.length} {b01 c.aborted} {b01 (st.L.waiters.any (·.cid == cid))}")
     | none => (st, "bad-op")
   | ["dump", db, now] =>
     match db.toNat?, now.toNat? with
-    | some db, some now => (st, Keyspace.showDb now (KS.getDb st.s.store db))
+    | some db, some now => (st, Keyspace.showDb now (KS.getDb st.L.srv.store db))
     | _, _ => (st, "bad-op")
-  | ["ext"] => (st, showExt st.s.ext)
+  | ["dumpspec", db, now] =>
+    match db.toNat?, now.toNat? with
+    | some db, some now => (st, Keyspace.showDb now (KS.getDb st.P.srv.store db))
+    | _, _ => (st, "bad-op")
+  | ["ext"] => (st, showExt st.L.srv.ext)
+  | ["waiters"] => (st, showWaiters st.L.waiters)
   | ["switches"] =>
     let q := Quirks.ofSource
     (st, (if q.immediate.isEmpty then "." else String.intercalate "|" q.immediate) ++ " " ++ b01 q.selectInExecIgnored ++ " " ++ b01 q.blockingInExecNoResponse)
